@@ -131,3 +131,79 @@ Proof.
   intros sigs t H. rewrite first_match by auto. rewrite <- first_clean_none.
   destruct (first_clean sigs t); split; congruence.
 Qed.
+
+(* ---------- Any never selects one overload's type ------------------------- *)
+
+(* the overloads the resolver looks at for a union-free call: every match up
+   to and including the first clean one *)
+Fixpoint considered (sigs : list osig) (t : tuple) : list osig :=
+  match sigs with
+  | [] => []
+  | s :: rest =>
+      match accepts s t with
+      | Fail => considered rest t
+      | ViaAny => s :: considered rest t
+      | Clean => [s]
+      end
+  end.
+
+Lemma two_distinct_not_single : forall l r1 r2,
+  In r1 l -> In r2 l -> r1 <> r2 -> (length (nodupn l) =? 1) = false.
+Proof.
+  intros l r1 r2 H1 H2 Hd. apply Nat.eqb_neq. intros E.
+  unfold nodupn in *. apply (nodup_In Nat.eq_dec) in H1. apply (nodup_In Nat.eq_dec) in H2.
+  destruct (nodup Nat.eq_dec l) as [|x [|y l']]; simpl in *; try discriminate.
+  destruct H1 as [<-|[]]. destruct H2 as [<-|[]]. congruence.
+Qed.
+
+Lemma ref_unionfree_two : forall sigs t anys r1 r2,
+  In r1 (anys ++ map os_ret (considered sigs t)) ->
+  In r2 (anys ++ map os_ret (considered sigs t)) ->
+  r1 <> r2 -> ref_unionfree sigs t anys = RAnyMulti.
+Proof.
+  induction sigs as [|s rest IH]; intros t anys r1 r2 H1 H2 Hd.
+  - simpl in *. rewrite app_nil_r in *. destruct anys as [|a l]; [contradiction|].
+    now rewrite (two_distinct_not_single _ _ _ H1 H2 Hd).
+  - cbn [ref_unionfree considered] in *. destruct (accepts s t).
+    + destruct anys as [|a l]; auto. simpl in *.
+      destruct H1 as [<-|[]]. destruct H2 as [<-|[]]. congruence.
+    + apply (IH t (anys ++ [os_ret s]) r1 r2); auto; rewrite <- app_assoc; simpl; auto.
+    + apply (IH t anys r1 r2); auto.
+Qed.
+
+Theorem any_never_selects : forall sigs t s1 s2,
+  In s1 (considered sigs t) -> In s2 (considered sigs t) -> os_ret s1 <> os_ret s2 ->
+  resolve sigs (singletons t) = RAnyMulti.
+Proof.
+  intros sigs t s1 s2 H1 H2 Hd. rewrite resolve_unionfree.
+  apply (ref_unionfree_two sigs t [] (os_ret s1) (os_ret s2)); simpl; auto; now apply in_map.
+Qed.
+
+(* a selected type is the clean first match, or the common type of all matches *)
+Lemma ref_unionfree_types : forall sigs t anys rs,
+  ref_unionfree sigs t anys = RTypes rs ->
+  exists r, rs = [r] /\ forall r', In r' (anys ++ map os_ret (considered sigs t)) -> r' = r.
+Proof.
+  induction sigs as [|s rest IH]; intros t anys rs H.
+  - simpl in *. rewrite app_nil_r. destruct anys as [|a l]; try discriminate.
+    destruct (length (nodupn (a :: l)) =? 1) eqn:E; try discriminate. inversion H; subst rs.
+    apply Nat.eqb_eq in E. unfold nodupn in *.
+    destruct (nodup Nat.eq_dec (a :: l)) as [|x [|y l']] eqn:En; simpl in E; try discriminate.
+    exists x. split; auto. intros r' Hr. apply (nodup_In Nat.eq_dec) in Hr. rewrite En in Hr.
+    destruct Hr as [<-|[]]; auto.
+  - cbn [ref_unionfree considered] in *. destruct (accepts s t).
+    + destruct anys as [|a l]; try discriminate. inversion H; subst rs. exists (os_ret s). split; auto.
+      intros r' [<-|[]]; auto.
+    + destruct (IH t _ rs H) as [r [E Hall]]. exists r. split; auto. intros r' Hr. apply Hall.
+      rewrite <- app_assoc. exact Hr.
+    + apply IH; auto.
+Qed.
+
+Theorem selected_type_is_common : forall sigs t rs,
+  resolve sigs (singletons t) = RTypes rs ->
+  exists r, rs = [r] /\ forall s, In s (considered sigs t) -> os_ret s = r.
+Proof.
+  intros sigs t rs H. rewrite resolve_unionfree in H.
+  destruct (ref_unionfree_types _ _ _ _ H) as [r [E Hall]]. exists r. split; auto.
+  intros s Hs. apply Hall. simpl. now apply in_map.
+Qed.
